@@ -252,6 +252,48 @@ def Builder.exportResourcesV (B : Builder β) (opts : Opts) (ord1 ord2 : List (T
 def Builder.exportResourceV1 (B : Builder β) (opts : Opts) (fuel : Nat) (s : Term β) : Option (Resource β) :=
   (B.exportResourceV opts fuel s []).map (·.1)
 
+/-! ## Histories on one builder (several exports, some abandoned early)
+
+  `ExportResources` returns an `iter.Seq`; a consumer may stop it early (`break`, or
+  `ToResourceWriter` returning on a writer error). In the repaired code the `inlined` set is a local of
+  the iterator function, so nothing an export does — complete or abandoned — is kept on the builder:
+  the builder's state is `resourceBySubject` and `blankNodeReferences` only, and only `Add` writes it. -/
+
+/-- ExportResources(opts) consumed by a loop that stops after `take` resources (`none`: to the end). -/
+def Builder.exportResourcesVTake (B : Builder β) (opts : Opts) (ord1 ord2 : List (Term β)) (fuel : Nat)
+    (take : Option Nat) : Option (List (Resource β)) :=
+  (B.exportResourcesV opts ord1 ord2 fuel).map fun rs =>
+    match take with
+    | none => rs
+    | some k => rs.take k
+
+/-- one call on a ResourceListBuilder -/
+inductive HStep (β : Type) where
+  | add (ts : List (Triple β))
+  | exportRs (opts : Opts) (ord1 ord2 : List (Term β)) (take : Option Nat)
+  | exportOne (opts : Opts) (s : Term β)
+
+/-- the builder after the call: only `Add` changes it -/
+def Builder.hstep (B : Builder β) : HStep β → Builder β
+  | .add ts => B.add ts
+  | .exportRs _ _ _ _ => B
+  | .exportOne _ _ => B
+
+/-- what the call hands to its consumer -/
+def Builder.hout (B : Builder β) (fuel : Nat) : HStep β → Option (List (Resource β))
+  | .add _ => some []
+  | .exportRs opts ord1 ord2 take => B.exportResourcesVTake opts ord1 ord2 fuel take
+  | .exportOne opts s => (B.exportResourceV1 opts fuel s).map fun r => [r]
+
+def Builder.run (B : Builder β) (h : List (HStep β)) : Builder β := h.foldl Builder.hstep B
+
+def HStep.added : HStep β → List (Triple β)
+  | .add ts => ts
+  | _ => []
+
+/-- all triples added in the course of a history, in order -/
+def addedBy (h : List (HStep β)) : List (Triple β) := h.flatMap HStep.added
+
 /-! ## Flattening: NewTriples -/
 
 /-- Blank nodes of flattened output: a node of the input, or the `n`-th node made by `rdf.NewBlankNode()`. -/
